@@ -24,7 +24,7 @@ from harness.common import Check, coq_Z, coq_bool, coq_list
 REGISTRY = dict(
     text=("Proof (unbounded): after any history of add / truncate_last_trajectory / pickle round trips, for every capacity, n_envs and episode-length sequence (episodes wrapping the ring and "
           "longer than it included), every sampleable slot lies in a recorded segment whose slots hold consecutive, not overwritten transitions of one finished episode ending at the segment's last slot; "
-          "the goal slot of every admissible draw of 'future' / 'final' / 'episode' is in that same episode (at or after the transition / its last transition / any); a relabelled sample keeps obs, action, "
+          "the goal slot of every admissible draw of 'future' / 'final' / 'episode' is in that same episode (at or after the transition / its last transition / any); a relabelled sample (model definition, tied to _get_virtual_samples by picked fragments - goal source key, compute_reward argument order, both desired_goal writes - and by the exhaustive correspondence) keeps obs, action, "
           "next obs, done, replaces the desired goal identically in obs and next obs, reward = compute_reward(next achieved, new goal); the relabelled share is floor(n*B/(n+1)); real samples obey the ring law of C03 (one add among the last capacity, slot = add mod capacity); "
           "candidates = exactly the sampleable cells, relabelled + real = batch size. "
           "Tie: bookkeeping arithmetic, goal index expressions and the share formula are regenerated from her_replay_buffer.py on every run + exhaustive sample-table correspondence."),
